@@ -100,6 +100,52 @@ def judge_edges(ctx, name, l, subset_idx, labels_full, scheme, segs, cols, rep):
     return True
 
 
+def clip_area_exact(pts, off):
+    """exact area (Fractions) of the part of the polygon pts + off that lies in the closed unit cell (Sutherland-Hodgman against the four walls)"""
+    poly = [(Fraction(float(x)) + off[0], Fraction(float(y)) + off[1]) for x, y in pts]
+    for axis, bound, keep_less in ((0, Fraction(0), False), (0, Fraction(1), True), (1, Fraction(0), False), (1, Fraction(1), True)):
+        out = []
+        for k in range(len(poly)):
+            a, b = poly[k - 1], poly[k]
+            ina = a[axis] <= bound if keep_less else a[axis] >= bound
+            inb = b[axis] <= bound if keep_less else b[axis] >= bound
+            if ina != inb:
+                t = (bound - a[axis]) / (b[axis] - a[axis])
+                out.append((a[0] + t * (b[0] - a[0]), a[1] + t * (b[1] - a[1])))
+            if inb:
+                out.append(b)
+        poly = out
+        if not poly:
+            return Fraction(0)
+    return abs(sum(poly[k - 1][0] * poly[k][1] - poly[k][0] * poly[k - 1][1] for k in range(len(poly)))) / 2
+
+
+def judge_polygons(idx, ref, drawn, rep):
+    """every periodic image of a selected plaquette that meets the cell in positive area is drawn, each drawn polygon is such an image, none twice"""
+    by = {}
+    for i, col, path in drawn:
+        by.setdefault(i, []).append(np.asarray(path.vertices, dtype=float))
+    for i, pts in ref:
+        offs = []
+        for V in by.get(i, []):
+            o = np.round(V.mean(axis=0) - pts.mean(axis=0)) if len(V) == len(pts) else None
+            if o is None or sorted(map(tuple, np.round(V - o, 9))) != sorted(map(tuple, np.round(pts, 9))):
+                rep(f"a polygon drawn for plaquette {i} is not a periodic image of that plaquette"); return False
+            offs.append((int(o[0]), int(o[1])))
+        if len(set(offs)) != len(offs):
+            rep(f"plaquette {i} is drawn twice at the same place (image offsets {sorted(offs)})"); return False
+        lo, hi = pts.min(axis=0), pts.max(axis=0)
+        for ox in range(-3, 4):
+            for oy in range(-3, 4):
+                if lo[0] + ox >= 1 or hi[0] + ox <= 0 or lo[1] + oy >= 1 or hi[1] + oy <= 0 or (ox, oy) in offs:
+                    continue
+                a = clip_area_exact(pts, (ox, oy))
+                if a > 0:
+                    rep(f"the image of plaquette {i} shifted by {(ox, oy)} meets the unit cell in area {float(a):.3e} (exact clipping) but is not drawn: points of the "
+                        f"cell inside a selected plaquette are covered by no polygon", plaquette=int(i), offset=[ox, oy]); return False
+    return True
+
+
 def subsets_for(rng, n):
     k = max(1, n // 3)
     idx = np.sort(rng.choice(n, size=k, replace=False))
@@ -176,7 +222,9 @@ def check_lattice(ctx, rng, name, l):
                     ref.append((int(i), pts))
                 G = 17
                 samples = [((a + 0.37) / G, (b + 0.61) / G) for a in range(G) for b in range(G)]
-                ok = True
+                ok = judge_polygons(idx, ref, drawn, rep)
+                if not ok:
+                    samples = []
                 for pt in samples:
                     want = [i for i, pts in ref for ox in (-1, 0, 1) for oy in (-1, 0, 1) if MPath(pts + np.array([ox, oy])).contains_point(pt)]
                     got = [(i, col) for i, col, path in drawn if path.contains_point(pt)]
@@ -258,7 +306,7 @@ def run(ctx):
     ctx.count("intersection_pairs_compared", len(allp))
     ctx.assumptions += ["matplotlib renders the artists it is handed (LineCollection segments, PolyCollection paths, scatter offsets) - the artists, not pixels, are judged",
                         "the visible-image rule (crosses the cell or fully inside <=> meets the open cell) is not proved: it is decided per drawn image by exact clipping",
-                        "polygon coverage is decided on a 17x17 generic sample grid with float point-in-polygon tests"]
+                        "polygon coverage is decided by exact clipping (Fractions) of every periodic image of every selected plaquette against the unit cell - each image of positive area must be drawn, once - and on a 17x17 generic sample grid with float point-in-polygon tests"]
 
 
 def replay(ctx, path):
